@@ -19,8 +19,8 @@ run():
      Ed25519 signature / signed data / challenge / channel id, of WAMP-CRA keys, challenges, secrets, salts, and of
      TOTP tickets must give a rejection or a different signature.
 
-PBKDF2 through the Lean driver: in the thorough tier all cases except two thirds of the (1 KiB secret, 4096 iterations)
-ones; in the quick tier every case whose cost (iterations x blocks x long-key factor) is <= 2000 and every 5th of the
+PBKDF2 through the Lean driver: in the thorough tier all cases except two thirds of those with a secret longer than the HMAC
+block (65 octets, 1 KiB) at 4096 iterations; in the quick tier every case whose cost (iterations x blocks x long-key factor) is <= 2000 and every 5th of the
 rest — hashlib covers all of them in both tiers.
 
 Self-test 2026-09-23 (single edits in a scratch copy of /repo/src, `VERIF_REPO=/tmp/c19mut ./check C19 --tier quick`; every
@@ -1048,8 +1048,8 @@ def run(ctx):
     res.notes.append("libraries: " + json.dumps(libs, sort_keys=True))
     res.notes.append("independent Argon2id: " + ("cryptography/OpenSSL (different implementation from argon2-cffi)" if libs.get("independent_argon2id")
                                                   else "NOT AVAILABLE (argon2 cases not judged against an independent implementation)"))
-    res.notes.append("PBKDF2: hashlib (OpenSSL via CPython) is compared on every case; the Lean reference on all cases but two thirds of the (1 KiB secret, "
-                     "4096 iterations) ones in the thorough tier and on the low-cost ones plus every 5th high-iteration case in the quick tier "
+    res.notes.append("PBKDF2: hashlib (OpenSSL via CPython) is compared on every case; the Lean reference on all cases but two thirds of those with a secret longer than the "
+                     "HMAC block (65 octets, 1 KiB) at 4096 iterations in the thorough tier and on the low-cost ones plus every 5th high-iteration case in the quick tier "
                      "(see input_distribution pbkdf2_via_lean / pbkdf2_hashlib_only)")
     J = Judge(ctx, res)
     judge_simple(J, cases, results)
